@@ -2,6 +2,17 @@
 import json, os
 V = os.path.dirname(os.path.dirname(os.path.abspath(__file__)))
 CLAIMED = {
+ "C18": dict(
+   text="Proof: the binned initial values are linear in N (slopes unchanged); the stellar-evolution field is homogeneous of degree one in the star counts provided no "
+        "'empty bin' comparison changes side (the only place an absolute constant enters); BH ejection is homogeneous in (bins, budget); and (RK.v) a homogeneous field "
+        "gives a homogeneous numerical flow for ANY explicit tableau and step sequence. Per run: a regenerated inventory of every numeric literal in the derivative and "
+        "ejection functions must equal the inventory the models account for (an added absolute threshold breaks this obligation); field-level scale pairs for both "
+        "derivative parts on arbitrary states; bit-exact power-of-two scaling of ejection; pairs of full constructions at scale factors 0.1-100 for the three model classes; "
+        "explicit N0 vs the IMF object's own N0 and from_powerlaw vs IMF object compared bit-for-bit for EvolvedMF, EvolvedMFWithBH and InitialBHPopulation.",
+   design="8/C18 + 4", technique="Coq homogeneity proofs (fields, ejection, RK flow) + regenerated literal inventory + scale-pair differential oracle",
+   note="Trusted: Coq kernel; Reals axioms; escape-field homogeneity is measured on the implementation, not proved; full-run pairs are integrated with the tolerance "
+        "tightened from outside (dopri5's absolute atol makes the default-tolerance result scale only to integrator accuracy - measured 2e-2 in a turn-off bin's slope); harness."),
+
  "C17": dict(
    text="Proof: in the model of the constructors' validation (checks in source order) any ONE invalid family - positive constant escape rate, unknown escape norm, unknown "
         "BH/WD IFMR method, analytic parameters failing the end-point validation, overlapping WD/BH progenitor ranges, unknown binning or kick method, f_BH list of wrong "
